@@ -15,6 +15,30 @@ use serde_json::{json, Value};
 
 use crate::core::mix;
 
+/// Number of case evaluations finished so far (watchdog: see `start_watchdog`).
+pub static PROGRESS: AtomicU64 = AtomicU64::new(0);
+
+/// A run call that never returns cannot be told from a slow one by an oracle:
+/// when no case evaluation finishes for `secs` seconds the process reports
+/// "inconclusive" (exit code 2), never a violation.
+pub fn start_watchdog(secs: u64) {
+    std::thread::spawn(move || {
+        let mut last = PROGRESS.load(Ordering::Relaxed);
+        let mut since = Instant::now();
+        loop {
+            std::thread::sleep(std::time::Duration::from_millis(500));
+            let p = PROGRESS.load(Ordering::Relaxed);
+            if p != last {
+                last = p;
+                since = Instant::now();
+            } else if since.elapsed().as_secs() >= secs {
+                eprintln!("WATCHDOG: no case evaluation finished for {} s (a run call seems to hang): inconclusive", secs);
+                std::process::exit(2);
+            }
+        }
+    });
+}
+
 pub enum Verdict {
     Pass {
         nontrivial: bool,
@@ -206,6 +230,7 @@ impl Ctx {
                             return Ok(());
                         }
                         let v = s.eval(&c);
+                        PROGRESS.fetch_add(1, Ordering::Relaxed);
                         match v {
                             Verdict::Pass {
                                 nontrivial,
